@@ -261,7 +261,7 @@ def kernel_comparators(tier, seed, params):
         res["solver_time_s"] += tw["time_s"] + tw2["time_s"]
         res["queries"].append({"name": f"twin:{kind}", "result": tw["result"] + "/" + tw2["result"], "time_s": tw["time_s"] + tw2["time_s"],
                                "engine": tw["engine"]})
-        if not (tw["result"] == "sat" and tw2["result"] == "sat"):
+        if "unsat" in (tw["result"], tw2["result"]):      # a timeout of the witness query is not a vacuity finding
             res["errors"].append(f"vacuity twin of {kind}: comparator is constant ({tw['result']}/{tw2['result']})")
     res["samples"] = [{"obligation": "exists a,b!=0 over K keys, 0<=P<=100, 0<=n<=K+1 . impl(cmp)(a,b,P,n) != spec(a,b,P,n)  -> unsat required",
                        "spec": {"percent": "100*|a&b| >= P*|a|b|", "number": "|a&b| >= n", "equals": "a == b", "any": "percent or number",
